@@ -958,7 +958,7 @@ static const yytype_int16 yyrline[] =
     2398,  2408,  2423,  2422,  2435,  2436,  2441,  2474,  2499,  2555,
     2562,  2568,  2574,  2584,  2588,  2596,  2608,  2622,  2629,  2636,
     2661,  2673,  2685,  2697,  2712,  2724,  2739,  2788,  2809,  2844,
-    2879,  2913,  2938,  2955,  2965,  2975,  2985,  2995,  3015,  3035
+    2879,  2913,  2945,  2969,  2979,  2989,  2999,  3009,  3029,  3049
 };
 #endif
 
@@ -5112,7 +5112,14 @@ yyreduce:
         if ((yyvsp[-2].expression).type == EXPRESSION_TYPE_INTEGER &&
             (yyvsp[0].expression).type == EXPRESSION_TYPE_INTEGER)
         {
-          if ((yyvsp[0].expression).value.integer != 0)
+          if ((yyvsp[0].expression).value.integer == -1 && (yyvsp[-2].expression).value.integer == INT64_MIN)
+          {
+            // Undefined at run time too (see OP_INT_DIV), dividing here would
+            // raise SIGFPE in the compiler.
+            (yyval.expression).value.integer = YR_UNDEFINED;
+            (yyval.expression).type = EXPRESSION_TYPE_INTEGER;
+          }
+          else if ((yyvsp[0].expression).value.integer != 0)
           {
             (yyval.expression).value.integer = OPERATION(/, (yyvsp[-2].expression).value.integer, (yyvsp[0].expression).value.integer);
             (yyval.expression).type = EXPRESSION_TYPE_INTEGER;
@@ -5129,18 +5136,25 @@ yyreduce:
 
         fail_if_error(result);
       }
-#line 5133 "libyara/grammar.c"
+#line 5140 "libyara/grammar.c"
     break;
 
   case 162: /* primary_expression: primary_expression '%' primary_expression  */
-#line 2939 "libyara/grammar.y"
+#line 2946 "libyara/grammar.y"
       {
         check_type((yyvsp[-2].expression), EXPRESSION_TYPE_INTEGER, "%");
         check_type((yyvsp[0].expression), EXPRESSION_TYPE_INTEGER, "%");
 
         fail_if_error(yr_parser_emit(yyscanner, OP_MOD, NULL));
 
-        if ((yyvsp[0].expression).value.integer != 0)
+        if ((yyvsp[0].expression).value.integer == -1 && (yyvsp[-2].expression).value.integer == INT64_MIN)
+        {
+          // Undefined at run time too (see OP_MOD), computing it here would
+          // raise SIGFPE in the compiler.
+          (yyval.expression).value.integer = YR_UNDEFINED;
+          (yyval.expression).type = EXPRESSION_TYPE_INTEGER;
+        }
+        else if ((yyvsp[0].expression).value.integer != 0)
         {
           (yyval.expression).value.integer = OPERATION(%, (yyvsp[-2].expression).value.integer, (yyvsp[0].expression).value.integer);
           (yyval.expression).type = EXPRESSION_TYPE_INTEGER;
@@ -5150,11 +5164,11 @@ yyreduce:
           fail_if_error(ERROR_DIVISION_BY_ZERO);
         }
       }
-#line 5154 "libyara/grammar.c"
+#line 5168 "libyara/grammar.c"
     break;
 
   case 163: /* primary_expression: primary_expression '^' primary_expression  */
-#line 2956 "libyara/grammar.y"
+#line 2970 "libyara/grammar.y"
       {
         check_type((yyvsp[-2].expression), EXPRESSION_TYPE_INTEGER, "^");
         check_type((yyvsp[0].expression), EXPRESSION_TYPE_INTEGER, "^");
@@ -5164,11 +5178,11 @@ yyreduce:
         (yyval.expression).type = EXPRESSION_TYPE_INTEGER;
         (yyval.expression).value.integer = OPERATION(^, (yyvsp[-2].expression).value.integer, (yyvsp[0].expression).value.integer);
       }
-#line 5168 "libyara/grammar.c"
+#line 5182 "libyara/grammar.c"
     break;
 
   case 164: /* primary_expression: primary_expression '&' primary_expression  */
-#line 2966 "libyara/grammar.y"
+#line 2980 "libyara/grammar.y"
       {
         check_type((yyvsp[-2].expression), EXPRESSION_TYPE_INTEGER, "^");
         check_type((yyvsp[0].expression), EXPRESSION_TYPE_INTEGER, "^");
@@ -5178,11 +5192,11 @@ yyreduce:
         (yyval.expression).type = EXPRESSION_TYPE_INTEGER;
         (yyval.expression).value.integer = OPERATION(&, (yyvsp[-2].expression).value.integer, (yyvsp[0].expression).value.integer);
       }
-#line 5182 "libyara/grammar.c"
+#line 5196 "libyara/grammar.c"
     break;
 
   case 165: /* primary_expression: primary_expression '|' primary_expression  */
-#line 2976 "libyara/grammar.y"
+#line 2990 "libyara/grammar.y"
       {
         check_type((yyvsp[-2].expression), EXPRESSION_TYPE_INTEGER, "|");
         check_type((yyvsp[0].expression), EXPRESSION_TYPE_INTEGER, "|");
@@ -5192,11 +5206,11 @@ yyreduce:
         (yyval.expression).type = EXPRESSION_TYPE_INTEGER;
         (yyval.expression).value.integer = OPERATION(|, (yyvsp[-2].expression).value.integer, (yyvsp[0].expression).value.integer);
       }
-#line 5196 "libyara/grammar.c"
+#line 5210 "libyara/grammar.c"
     break;
 
   case 166: /* primary_expression: '~' primary_expression  */
-#line 2986 "libyara/grammar.y"
+#line 3000 "libyara/grammar.y"
       {
         check_type((yyvsp[0].expression), EXPRESSION_TYPE_INTEGER, "~");
 
@@ -5206,11 +5220,11 @@ yyreduce:
         (yyval.expression).value.integer = ((yyvsp[0].expression).value.integer == YR_UNDEFINED) ?
             YR_UNDEFINED : ~((yyvsp[0].expression).value.integer);
       }
-#line 5210 "libyara/grammar.c"
+#line 5224 "libyara/grammar.c"
     break;
 
   case 167: /* primary_expression: primary_expression "<<" primary_expression  */
-#line 2996 "libyara/grammar.y"
+#line 3010 "libyara/grammar.y"
       {
         int result;
 
@@ -5230,11 +5244,11 @@ yyreduce:
 
         fail_if_error(result);
       }
-#line 5234 "libyara/grammar.c"
+#line 5248 "libyara/grammar.c"
     break;
 
   case 168: /* primary_expression: primary_expression ">>" primary_expression  */
-#line 3016 "libyara/grammar.y"
+#line 3030 "libyara/grammar.y"
       {
         int result;
 
@@ -5254,19 +5268,19 @@ yyreduce:
 
         fail_if_error(result);
       }
-#line 5258 "libyara/grammar.c"
+#line 5272 "libyara/grammar.c"
     break;
 
   case 169: /* primary_expression: regexp  */
-#line 3036 "libyara/grammar.y"
+#line 3050 "libyara/grammar.y"
       {
         (yyval.expression) = (yyvsp[0].expression);
       }
-#line 5266 "libyara/grammar.c"
+#line 5280 "libyara/grammar.c"
     break;
 
 
-#line 5270 "libyara/grammar.c"
+#line 5284 "libyara/grammar.c"
 
       default: break;
     }
@@ -5490,5 +5504,5 @@ yyreturnlab:
   return yyresult;
 }
 
-#line 3041 "libyara/grammar.y"
+#line 3055 "libyara/grammar.y"
 
